@@ -504,8 +504,8 @@ def junk_file(rng, model, d):
 def check_cli(run, setup, tmpdir, text, tag, explicit_files):
     path = write_text(tmpdir, "cli_dump.txt", text)
     want = impl_dump_file(path, setup)
-    if any(("\n" in x or "\r" in x or not x.isascii()) for x in want):
-        run.count("cli:skipped-nonascii")
+    if any(("\n" in x or "\r" in x) for x in want):
+        run.count("cli:skipped-embedded-newline")
         return
     args = [common.PY, "-m", "io_drawer.dump", "-t", setup.drawer or "mex"]
     if explicit_files:
@@ -515,11 +515,26 @@ def check_cli(run, setup, tmpdir, text, tag, explicit_files):
     run.evaluations += 1
     run.count(tag)
     out = p.stdout.decode("utf-8", "replace")
-    if p.returncode != 0 or out != "".join(x + "\n" for x in want):
+
+    def encodable(x):
+        try:
+            x.encode("utf-8")
+            return True
+        except UnicodeEncodeError:
+            return False
+    if all(encodable(x) for x in want):
+        ok = out == "".join(x + "\n" for x in want)
+    else:
+        # a line holds a character no output encoding can write (a '%c' argument in the surrogate range): how it is shown is
+        # not prescribed, but every region must still be reported - same number of lines, the other lines unchanged
+        run.count("cli:unencodable-character")
+        got = out.split("\n")[:-1]
+        ok = len(got) == len(want) and all(g == w for g, w in zip(got, want) if encodable(w))
+    if p.returncode != 0 or not ok:
         run.violation("cli:output", "`python -m io_drawer.dump -t %s` does not print the lines parse_dump_file returns (rc %d)"
                       % (setup.drawer or "mex", p.returncode),
-                      dict(kind="S", fn="cli", file_text=text, explicit_files=explicit_files, expected=want, actual=out.split("\n"),
-                           stderr=p.stderr.decode("utf-8", "replace")[-500:], rc=p.returncode, **setup.ref()))
+                      dict(kind="S", fn="cli", file_text=text, explicit_files=explicit_files, expected=[x.encode("utf-8", "backslashreplace").decode() for x in want],
+                           actual=out.split("\n"), stderr=p.stderr.decode("utf-8", "replace")[-500:], rc=p.returncode, **setup.ref()))
 
 
 # ---------------------------------------------------------------------------------------------
@@ -639,6 +654,22 @@ def run(run, model, proof):
                 d += good_buffer(rng, s, n)
             text = "".join(render(model, 1 + i % 2, bool(i & 2), d)) if i != 5 else ""
             check_cli(run, s, tmpdir, text, "cli", explicit_files=s.drawer is None or i % 3 == 0)
+
+        # a '%c' argument outside what any output encoding can write (a surrogate), and an accented one
+        import struct as _st
+        for s in every:
+            cs = [(h, f) for h, f, _l in s.str.tbl if "%c" in f and "%s" not in f]
+            if not cs:
+                continue
+            h, f = cs[0]
+            nargs = f.count("%") - 2 * f.count("%%")
+            for ch in (0xD800, 0xE9, 0xDFFF):
+                data = b"".join(_st.pack(">I", ch if k % 2 else 0x41) for k in range(max(1, nargs)))
+                es = [c15.mk_entry(rng, data, tag=c15.T_TRACE, h=h, pad=b"" if len(data) % 4 == 0 else None), c15.mk_entry(rng, b"\0\0\0\7", tag=c15.T_BIN, h=1)]
+                hd = c15.mk_header(rng, c15.total_len(es), comp=b"FANS".ljust(12, b"\0"))
+                hd.update(ver=2, hdr_len=0x20, time_flg=1, endian_flg=0x42)
+                d = c15.py_encode(hd, es) + good_buffer(rng, s, b"INFO")
+                check_cli(run, s, tmpdir, "".join(render(model, 1, False, d)), "cli:%%c=%04X" % ch, explicit_files=True)
 
         for s in every:
             flush(run, model, s)
